@@ -134,6 +134,7 @@ var (
 	zzHits      = map[string]int{}   // "tag|site" -> hits
 	zzExited    = map[int]bool{}
 	zzLastEvent = map[int]time.Time{} // tag -> time of its last gate event
+	zzParked    = map[int]bool{}      // tag -> currently held at a gate (that is not "blocked in the program")
 )
 
 func zzGoID() int64 {
@@ -205,12 +206,18 @@ func zzGateResetForCase() {
 	zzHits = map[string]int{}
 	zzExited = map[int]bool{}
 	zzLastEvent = map[int]time.Time{}
+	zzParked = map[int]bool{}
 	zzGateMu.Unlock()
 }
 
 // zzWaitFor holds the calling goroutine (zzGateMu held) until the step's until-event has happened.
 func zzWaitFor(st zzGateStep, tag int, site string) {
 	deadline := time.Now().Add(3 * time.Second)
+	zzParked[tag] = true
+	defer func() {
+		zzParked[tag] = false
+		zzLastEvent[tag] = time.Now()
+	}()
 	for {
 		done := false
 		switch st.untilKind {
@@ -221,7 +228,7 @@ func zzWaitFor(st zzGateStep, tag int, site string) {
 		case "block":
 			// the other goroutine blocked: approximated by "no gate event from it for 150ms"
 			last, seen := zzLastEvent[st.untilG]
-			done = (seen && time.Since(last) > 150*time.Millisecond) || zzExited[st.untilG]
+			done = (seen && !zzParked[st.untilG] && time.Since(last) > 150*time.Millisecond) || zzExited[st.untilG]
 		}
 		if done || time.Now().After(deadline) {
 			if os.Getenv("VERIF_GATE_DEBUG") != "" {
